@@ -80,14 +80,17 @@ def param_keys(b):
     return out
 
 
-def deps(b, defs, local, depth=0, seen=None):
-    """Set of origin roots ('argN...') a local depends on through calls and assignments."""
+def deps(b, defs, local, depth=0, seen=None, proj=None):
+    """Set of origin roots ('argN...') a local depends on through calls and assignments. `proj` is the projection with which
+    the local is read: a field read out of a tuple built in place only depends on that component."""
     if seen is None:
         seen = set()
     out = set()
-    if local in seen or depth > 40:
+    fld = proj[0][1] if proj and isinstance(proj[0], list) and proj[0] and proj[0][0] == "f" and isinstance(proj[0][1], int) else None
+    key = (local, fld)
+    if key in seen or depth > 40:
         return out
-    seen.add(local)
+    seen.add(key)
     argc = b.mir["argc"]
     if 1 <= local <= argc:
         return {"arg%d" % local}
@@ -98,19 +101,22 @@ def deps(b, defs, local, depth=0, seen=None):
             ops = s["args"]
         elif d[2] == "assign":
             rv = s["rv"]
-            for k in ("o", "a", "b"):
-                if k in rv:
-                    ops.append(rv[k])
-            ops += rv.get("ops", [])
-            if "p" in rv:
-                ops.append(["cp", rv["p"]])
+            if rv["k"] == "agg" and rv.get("ak") == "tuple" and fld is not None and fld < len(rv.get("ops", [])) and len(s["p"]) == 1:
+                ops = [rv["ops"][fld]]
+            else:
+                for k in ("o", "a", "b"):
+                    if k in rv:
+                        ops.append(rv[k])
+                ops += rv.get("ops", [])
+                if "p" in rv:
+                    ops.append(["cp", rv["p"]])
         for o in ops:
             if mir.is_place_op(o):
                 pl = o[1]
                 if 1 <= pl[0] <= argc:
                     out.add("arg%d" % pl[0] + "".join("." + x for x in mir.normalize_path(mir.proj_str(pl[1:]))))
                 else:
-                    out |= deps(b, defs, pl[0], depth + 1, seen)
+                    out |= deps(b, defs, pl[0], depth + 1, seen, pl[1:])
     return out
 
 
